@@ -57,6 +57,15 @@ func owners(class string, d *Disc) []string {
 			o = append(o, "C06")
 		}
 		return o
+	case strings.HasPrefix(class, "attr-"):
+		o := []string{"C04"}
+		if viaU {
+			o = append(o, "C06")
+		}
+		if viaA {
+			o = append(o, "C07")
+		}
+		return o
 	case strings.HasPrefix(class, "type-"):
 		return []string{"C09"}
 	case strings.HasPrefix(class, "find-"):
@@ -128,6 +137,7 @@ type cmp struct {
 	x2e  map[*schema.X]*yang.Entry
 	// counters of what was actually compared
 	Nodes, Leaves, Lookups int
+	Attrs                  int
 	Special                map[string]int // leaves whose type chain ends in an enumeration, leafref, decimal64, union
 }
 
@@ -201,6 +211,19 @@ func (c *cmp) compare(x *schema.X, e *yang.Entry) {
 	if len(e.Errors) > 0 {
 		c.bad(x, "node-errors", "%s carries errors after a clean Process: %v", p, e.Errors[0])
 	}
+	if src := x.Src; src != nil && !x.Implicit {
+		// what the statement itself says: key, defaults, element bounds, mandatory
+		if e.Key != src.Key {
+			c.bad(x, "attr-key", "%s: key %q, written %q", p, e.Key, src.Key)
+		}
+		if strings.Join(e.Default, "\x00") != strings.Join(src.Default, "\x00") {
+			c.bad(x, "attr-default", "%s: default %q, written %q", p, e.Default, src.Default)
+		}
+		if src.Min != nil && (e.ListAttr == nil || e.ListAttr.MinElements != *src.Min) {
+			c.bad(x, "attr-min-elements", "%s: min-elements differs from the written %d", p, *src.Min)
+		}
+		c.Attrs++
+	}
 	if x.T != nil {
 		c.Leaves++
 		t := e.Type
@@ -249,6 +272,16 @@ func (c *cmp) compare(x *schema.X, e *yang.Entry) {
 			}
 			if strings.Join(mk, " ") != strings.Join(x.T.Members, " ") {
 				c.bad(x, "type-union-members", "%s: union members %v, reference %v", p, mk, x.T.Members)
+			}
+			gp := append([]string{}, t.POSIXPattern...)
+			wp := append([]string{}, x.T.Posix...)
+			sort.Strings(gp)
+			sort.Strings(wp)
+			if strings.Join(gp, "\x00") != strings.Join(wp, "\x00") {
+				c.bad(x, "type-posix-patterns", "%s: posix-patterns %v, reference %v", p, t.POSIXPattern, x.T.Posix)
+			}
+			if len(wp) > 0 {
+				c.Special["posix-pattern"]++
 			}
 			got := append([]string{}, t.Pattern...)
 			want := append([]string{}, x.T.Patterns...)
@@ -567,7 +600,7 @@ func Run(j *job.Job, s *job.Sink) {
 	for i := j.Start; i < j.Start+j.Count; i++ {
 		rng := prng.For(j.Seed, "tree", j.Family, i) // the same sets for every property
 		// one set in eight is allowed unknown or cyclic type references (the error side of C09)
-		g := &schema.Gen{R: rng, Typedefs: true, TypeErrors: rng.Intn(8) == 0}
+		g := &schema.Gen{R: rng, Typedefs: true, TypeErrors: rng.Intn(8) == 0, Posix: rng.Intn(2) == 0}
 		g.Build()
 		res := &schema.Resolver{Mods: g.Mods}
 		res.Resolve()
@@ -576,6 +609,10 @@ func Run(j *job.Job, s *job.Sink) {
 		var cs Case
 		for _, m := range order {
 			cs.Files = append(cs.Files, File{m.Name + ".yang", schema.Print(m)})
+		}
+		if g.Posix {
+			at := rng.Intn(len(cs.Files) + 1)
+			cs.Files = append(cs.Files[:at], append([]File{{"openconfig-extensions.yang", schema.OCXText}}, cs.Files[at:]...)...)
 		}
 		s.Current(i, cs)
 		s.Count("sets", 1)
@@ -649,6 +686,7 @@ func Run(j *job.Job, s *job.Sink) {
 			}
 		}()
 		s.Count("nodes_compared", int64(c.Nodes))
+		s.Count("statement_attributes_compared", int64(c.Attrs))
 		s.Count("leaf_types_compared", int64(c.Leaves))
 		for k, v := range c.Special {
 			s.Count("leaf_types_compared:"+k, int64(v))
